@@ -554,7 +554,7 @@ func fmtMap(m map[string]int64) string {
 	var b bytes.Buffer
 	n := 0
 	for _, k := range core.SortedKeys(m) {
-		if strings.HasPrefix(k, "layout:") || strings.HasPrefix(k, "cell:") || strings.HasPrefix(k, "row:") {
+		if strings.HasPrefix(k, "layout:") || strings.HasPrefix(k, "cell:") || strings.HasPrefix(k, "row:") || strings.HasPrefix(k, "hostile:") || strings.HasPrefix(k, "kwname:") {
 			continue // fine-grained matrices are in the evidence file only
 		}
 		if n >= 60 {
